@@ -395,7 +395,7 @@ fn observe(cell: &Value, w: &Wire, status: u16, body: Vec<u8>, before: (usize, u
     o.insert("errs".into(), json!(errs));
     o.insert("effects".into(), json!(after.0 - before.0));
     o.insert("reads".into(), json!(after.1 - before.1));
-    o.insert("body".into(), json!(text.chars().take(240).collect::<String>()));
+    o.insert("response".into(), json!(text.chars().take(240).collect::<String>()));
     Value::Object(o)
 }
 
